@@ -16,6 +16,7 @@ import (
 	"net/http"
 	"io"
 	"bytes"
+	"compress/gzip"
 	"os"
 	"path/filepath"
 	"strconv"
@@ -129,13 +130,15 @@ func c02CondHeaders(cond string, id *fsIdent) string {
 	return b.String()
 }
 
-func c02CondRender(method string, resp *http.Response, body []byte, rerr error, id *fsIdent, explored bool) (string, string) {
+// chain=true (C03): Content-Encoding is not reported, weak entity tags (gzip directive) are
+// read as strong ones, a body compressed on the fly is decoded, Content-Length is not required.
+func c02CondRender(method string, resp *http.Response, body []byte, rerr error, id *fsIdent, explored bool, chain bool) (string, string) {
 	st := resp.StatusCode
 	h := resp.Header
 	isFileAnswer := h.Get("Etag") != "" || st == 416
 	if !isFileAnswer || (st != 200 && st != 206 && st != 304 && st != 412 && st != 416) || strings.HasPrefix(h.Get("Content-Disposition"), "attachment") {
 		// an answer that is not about a file's content must not carry a file's metadata either
-		e, okE := id.byEtag[h.Get("Etag")]
+		e, okE := id.byEtag[strings.TrimPrefix(h.Get("Etag"), "W/")]
 		l, okL := 0, false
 		if t, err := http.ParseTime(h.Get("Last-Modified")); err == nil {
 			l, okL = id.byTime[t.Unix()]
@@ -149,14 +152,21 @@ func c02CondRender(method string, resp *http.Response, body []byte, rerr error, 
 			}
 			return fmt.Sprintf("X\t%d\t%d\tin-%d", e, l, st), "metadata-in-error"
 		}
-		return fsRender(method, resp, body, rerr, true)
+		return fsRender(method, resp, body, rerr, !chain)
 	}
 	ce := h.Get("Content-Encoding")
-	if ce == "" {
+	if ce == "" || chain {
 		ce = "-"
 	}
+	if chain && len(body) > 2 && body[0] == 0x1f && body[1] == 0x8b {
+		if zr, err := gzip.NewReader(bytes.NewReader(body)); err == nil {
+			if d, err := io.ReadAll(zr); err == nil {
+				body = d
+			}
+		}
+	}
 	head := method == "HEAD"
-	etagIno, okE := id.byEtag[h.Get("Etag")]
+	etagIno, okE := id.byEtag[strings.TrimPrefix(h.Get("Etag"), "W/")]
 	lmIno, okL := 0, false
 	if lm := h.Get("Last-Modified"); lm != "" {
 		if t, err := http.ParseTime(lm); err == nil {
@@ -243,7 +253,7 @@ func c02CondRender(method string, resp *http.Response, body []byte, rerr error, 
 		return "C416\t-", "416"
 	case 200:
 		fI := c02InoStr(etagIno, okE)
-		if !okN || lenIno != etagIno {
+		if (!okN || lenIno != etagIno) && !chain {
 			fI += "/len=" + c02InoStr(lenIno, okN)
 		}
 		return fmt.Sprintf("%s200\t%s\t%s\t%s%s", pre, ce, fI, c02InoStr(lmIno, okL), bodyOK()), "200"
